@@ -415,6 +415,8 @@ def energy(self, vsig=None):
     for L_nn in self.elsignature:
         L_en = H_enext
         L_k = H_knext
+    if L_en != 0.0:
+        L_en = self.convert_energy_2_current_u(L_en)
     return L_en
 '''
 
